@@ -193,6 +193,15 @@ def ix(t, i):
     return ("ix", t, ("c", str(i)))
 
 
+def eta(t):
+    """a tuple rebuilt from the components of one value, in order, is that value: (x.0, x.1, ..) -> x"""
+    if isinstance(t, tuple) and t and t[0] == "tuple" and len(t[1]) >= 2:
+        fs = t[1]
+        if all(isinstance(f, tuple) and f[0] == "f" and f[2] == str(i) and f[1] == fs[0][1] for i, f in enumerate(fs)):
+            return fs[0][1]
+    return t
+
+
 def some_payload(t):
     return ("f", ("dc", t, "Some"), "0")
 
@@ -605,7 +614,8 @@ def index_valid(ctx, bodies, q):
     ev, ps = paths_of(ctx, R, pf)
     if ps is not None:
         want = ("call", KD_FIND, (field(("arg", 1), "kdtree"), ("arg", 2)), None)
-        ok = bool(ps) and all(p.ret is not None and strip(p.ret) == want for p in ps)
+        # the pair may be taken apart and rebuilt (`let (index, found) = self.kdtree.find(color); debug_assert!(..); (index, found)`): (x.0, x.1) is x
+        ok = bool(ps) and all(p.ret is not None and eta(strip(p.ret)) == want for p in ps)
         ctx.instance(R, {"ColorPalette::find": [show(p.ret)[:120] for p in ps], "is_kdtree.find(color)": ok})
         if not ok:
             ctx.violation(R, PAL_FIND, "delegate", "ColorPalette::find does not return self.kdtree.find(color): %s" % [show(p.ret)[:160] for p in ps], sites=[pf.loc])
@@ -837,18 +847,7 @@ def blend_agree(ctx, bodies, q):
         a = [ev.operand(x, None) for x in fc[0][1]["args"]]
         qbg = a[2]
         ok = a[0] == ("arg", 1) and a[1] == ("arg", 2)
-        okbg = is_call(qbg, r"Option::<T>::unwrap_or_else$|Option::<T>::unwrap_or$") and qbg[2][0] == ("arg", 4)
-        dflt = None
-        if okbg:
-            d = qbg[2][1]
-            cb = closure_body(prog, d)
-            if cb is not None:
-                evc, cps = paths_of(ctx, R, cb)
-                dflt = [strip(cp.ret) for cp in cps or []]
-            else:
-                dflt = [strip(d)]
-            black = ("call", "rasterize::RGBA::new", (("c", "0"), ("c", "0"), ("c", "0"), ("c", "255")), None)
-            okbg = bool(dflt) and all(x == black for x in dflt)
+        okbg, dflt = default_bg(b, fc[0][0], fc[0][1]["args"][2], ("arg", 4))
         ctx.instance(R, {"quantize_calls_from_image_with": [show(x)[:80] for x in a], "image_and_size_forwarded": ok, "bg_defaults_to_opaque_black": bool(okbg)})
         if not ok:
             ctx.violation(R, QUANT, "from-image-args", "quantize extracts the palette from %s with size %s instead of (self, palette_size)" % (show(a[0])[:60], show(a[1])[:60]), sites=["%s:%d" % (b.file, fc[0][1]["line"])])
@@ -878,6 +877,52 @@ def blend_agree(ctx, bodies, q):
     ctx.instance(R, {"quantize_pixel_paths": len(q["paths"]), "mapped_colour_is_blend_over(bg, pixel)_iff_alpha_lt_255_with_from_image's_bg": ok})
     if not ok:
         ctx.violation(R, QUANT, "quantize-site", "pixel mapping does not composite like palette extraction (same bg, exactly the pixels with alpha < 255): %s" % (probs[:2] or sorted(kinds)), sites=[b.loc])
+
+
+BLACK = ("call", "rasterize::RGBA::new", (("c", "0"), ("c", "0"), ("c", "0"), ("c", "255")), None)
+
+
+def default_bg(b, at, operand, opt, black=BLACK):
+    """is the value of `operand` at the start of block `at` `opt.unwrap_or(black)` -- decided by meaning: on every path from a dominator of `at`
+    (Option combinators evaluated by their definition, so `unwrap_or`, `unwrap_or_else`, `map_or`, `match`, `if let` .. are the same thing) the value is
+    the payload of `opt` where `opt` is Some and `black` where it is None.   -> (ok, [the default terms seen])"""
+    if not (opt[0] == "arg" and not b.defs_of(opt[1])):
+        return False, []
+    cfg = b.cfg()
+    doms = sorted((d for d in cfg.dom().get(at, ()) if d != at), key=lambda d: -len(cfg.dom()[d]))
+    payload = ("f", ("dc", opt, "Some"), "0")
+    seen = []
+    for D in [at] + doms[:24]:
+        ev = evaluator(b, max_paths=200, combinators=True)
+        try:
+            ps = ev.paths(D, [at]) if D != at else None
+        except TooManyPaths:
+            break
+        if ps is None:
+            continue
+        ps = [p for p in ps if p.end == ("stop", at)]
+        if not ps or any(x.end[0] == "loop" for x in ps):
+            continue
+        dflt, ok = [], True
+        for p in ps:
+            env = dict(p.env)
+            for s in b.blocks[at]["stmts"]:         # the argument temporaries of the call are filled in its own block
+                if s["k"] == "assign" and not s["place"]["p"]:
+                    env[s["place"]["l"]] = ev.rvalue(s["rv"], env)
+            v = ev.operand(operand, env)
+            some =("is", opt, "1") in p.facts or any(f[0] == "isnot" and f[1] == opt and "0" in f[2] and "1" not in f[2] for f in p.facts)
+            none = ("is", opt, "0") in p.facts or any(f[0] == "isnot" and f[1] == opt and "1" in f[2] and "0" not in f[2] for f in p.facts)
+            if some and not none:
+                ok = ok and v == payload
+            elif none and not some:
+                dflt.append(strip(v))
+                ok = ok and strip(v) == black
+            else:
+                ok = False
+        seen = dflt or seen
+        if ok and dflt:
+            return True, dflt
+    return False, seen
 
 
 def mapped_colour(p, q):
@@ -2230,6 +2275,187 @@ def _only_through(cfg, a, x, removed_edges):
     return True
 
 
+def umax(t):
+    """an upper bound of the unsigned integer term t derived from its operators alone (None: unknown): constants, `&` (either side bounds it), `|` and `^`
+    (below the next power of two above both sides), `>>` by a constant, `%` by a constant, widening casts"""
+    if not isinstance(t, tuple) or not t:
+        return None
+    c = const_int(t)
+    if c is not None:
+        return c if c >= 0 else None
+    if t[0] == "cast":
+        if not re.match(r"^[ui](8|16|32|64|128|size)$", t[1]):
+            return None
+        m = umax(t[2])      # truncation never raises an unsigned value; a signed target keeps values below 2^7 in every width
+        return m if m is not None and (t[1].startswith("u") or m <= 127) else None
+    if t[0] != "bin":
+        return None
+    a, b_ = umax(t[2]), umax(t[3])
+    if t[1] == "BitAnd":
+        return min(x for x in (a, b_) if x is not None) if (a is not None or b_ is not None) else None
+    if t[1] in ("BitOr", "BitXor"):
+        return (1 << max(a, b_).bit_length()) - 1 if a is not None and b_ is not None else None
+    if t[1] in ("Shr", "ShrUnchecked") and a is not None and const_int(t[3]) is not None and const_int(t[3]) >= 0:
+        return a >> const_int(t[3])
+    if t[1] == "Rem" and const_int(t[3]) is not None and const_int(t[3]) > 0:
+        return const_int(t[3]) - 1
+    if t[1] == "Div" and a is not None and const_int(t[3]) is not None and const_int(t[3]) > 0:
+        return a // const_int(t[3])
+    return None
+
+
+def subst(t, var, val):
+    """term t with the term `var` replaced by `val`; projections of aggregates that become known are folded (as sympath does while evaluating)"""
+    if t == var:
+        return val
+    if not isinstance(t, tuple) or not t:
+        return t
+    k = t[0]
+    if k == "dc" and len(t) == 3:
+        x = subst(t[1], var, val)
+        return x if isinstance(x, tuple) and x and x[0] == "agg" and x[2] == t[2] else ("dc", x, t[2])
+    if k == "f" and len(t) == 3:
+        x = subst(t[1], var, val)
+        if isinstance(x, tuple) and x and x[0] == "agg":
+            if t[2] in x[4]:
+                return x[3][x[4].index(t[2])]
+            if t[2].isdigit() and int(t[2]) < len(x[3]):
+                return x[3][int(t[2])]
+        if isinstance(x, tuple) and x and x[0] == "tuple" and t[2].isdigit() and int(t[2]) < len(x[1]):
+            return x[1][int(t[2])]
+        return ("f", x, t[2])
+    if k == "agg" and len(t) == 5:
+        return t[:3] + (tuple(subst(x, var, val) for x in t[3]), t[4])
+    return tuple(subst(x, var, val) if isinstance(x, tuple) else x for x in t)
+
+
+def argmin_ok(ctx, R, prog, b):
+    """argmin_color_count(tree) returns Some(i) only for an enumerate() position i over tree.children of an element whose info().min_color_count is Some -- decided on
+    what is returned, for the iterator chain (enumerate / filter_map / min_by_key / map: the closures are found by data flow) and for the loop that keeps the best
+    candidate in a local (every update of the accumulator stores the loop's own index under the fact that the element's min_color_count is Some, and the
+    returned value is the index component of the accumulator)"""
+    children = field(("arg", 1), "children")
+    if not b.cfg().loops():
+        ev, ps = paths_of(ctx, R, b)
+        if not ps:
+            return False
+        ok = True
+        for p in ps:
+            r = strip(p.ret) if p.ret is not None else None
+            good = r is not None and is_call(r, r"Option::<T>::map$") and is_call(r[2][0], r"Iterator::(min_by_key|max_by_key|min_by|max_by|next|last)$") and is_call(r[2][0][2][0], r"Iterator::filter_map$") \
+                and is_call(r[2][0][2][0][2][0], r"Iterator::enumerate$") and is_call(r[2][0][2][0][2][0][2][0], r"slice::<impl \[T\]>::iter$") and r[2][0][2][0][2][0][2][0][2] == (children,)
+            if not good:
+                return False
+            sel, flt = closure_body(prog, r[2][1]), closure_body(prog, r[2][0][2][0][2][1])
+            if sel is None or flt is None:
+                return False
+            ps_sel, ps_flt = paths_of(ctx, R, sel)[1], paths_of(ctx, R, flt)[1]
+            if not ps_sel or not ps_flt:
+                return False
+            ok = ok and all(q.ret is not None and strip(q.ret) == field(("arg", 2), "0") for q in ps_sel)
+            info_t = ("call", "image::OcTreeNode::info", (field(("arg", 2), "1"),), None)
+            mcc = ("try", field(info_t, "min_color_count"))
+            for q in ps_flt:
+                r2 = strip(q.ret) if q.ret is not None else None
+                if r2 is not None and r2[0] == "agg" and r2[2] == "Some":
+                    ok = ok and r2[3][0][0] == "tuple" and r2[3][0][1][0] == field(("arg", 2), "0") and \
+                        (variant_known([strip(f) for f in q.facts], mcc, "0") or variant_known([strip(f) for f in q.facts], mcc[1], "1"))
+                elif r2 is not None and is_call(r2, r"from_residual$"):
+                    pass
+                elif not (r2 is not None and r2[0] == "agg" and r2[2] == "None"):
+                    ok = False
+        return ok
+    # ---- the loop form
+    ev0 = evaluator(b)
+    loops = for_loops(b, ev0)
+    if len(loops) != 1 or len(b.cfg().loops()) != 1:
+        return False
+    lp = loops[0]
+    it = strip(lp["iter"]) if lp["iter"] else None
+    while is_call(it, r"IntoIterator.*into_iter$") and it[2]:
+        it = it[2][0]
+    if not (is_call(it, r"Iterator::enumerate$") and it[2] and is_call(it[2][0], r"slice::<impl \[T\]>::iter$") and it[2][0][2] == (children,)):
+        return False
+    item = strip(lp["item"])
+    idx_t = field(item, "0")
+    mcc = field(("call", "image::OcTreeNode::info", (field(item, "1"),), None), "min_color_count")
+    ev = evaluator(b, combinators=True)
+    try:
+        inner = ev.paths(lp["some"], [lp["head"]])
+        after = ev.paths(lp["none"], ())
+    except TooManyPaths:
+        return False
+    live = lambda ps: [p for p in ps if p.end[0] not in ("infeasible", "unreachable") and not panics(b, p)]     # noqa: E731
+    inner, after = live(inner), live(after)
+    inside = lambda l: {bb for bb, si, rv in b.defs_of(l) if bb in lp["body"]}       # noqa: E731
+    carried = [l for l in range(b.arg_count + 1, len(b.locals)) if inside(l) and len(inside(l)) < len(b.defs_of(l))]
+    cvars = [("var", l) for l in carried]
+
+    def selected(x, facts):
+        """x is the loop's own enumerate position, taken where the element's min_color_count is Some"""
+        facts = [strip(f) for f in facts]
+        return x == idx_t and (variant_known(facts, mcc, "1") or variant_known(facts, ("try", mcc), "0"))
+
+    def good_ret(r, facts):
+        return r is not None and r[0] == "agg" and r[1] == "std::option::Option" and (r[2] == "None" or (r[2] == "Some" and len(r[3]) == 1 and selected(r[3][0], facts)))
+    cands = {v: [] for v in cvars}      # values an accumulator can hold when the loop is left: (term, facts it was stored under | None for the initial value)
+    for l, v in zip(carried, cvars):
+        for bb, si, rv in b.defs_of(l):
+            if bb not in lp["body"]:
+                cands[v].append((strip(ev0.rvalue(rv, None)) if si != "term" else ("?",), None))
+    for p in inner:
+        if any(contains(strip(st[0]), v) for st in p.stores for v in cvars):
+            return False
+        if p.end[0] == "return":
+            if not good_ret(strip(p.ret) if p.ret is not None else None, p.facts):
+                return False
+            continue
+        if p.end != ("stop", lp["head"]):
+            return False
+        for l, v in zip(carried, cvars):
+            nv = p.env.get(l)
+            if nv is not None and nv != v:
+                cands[v].append((strip(nv), p.facts))
+
+    def infeasible(facts):
+        for f in facts:
+            if f[0] in ("is", "isnot") and isinstance(f[1], tuple) and f[1][0] == "agg":
+                vi = ev._variant_index(f[1])
+                if vi is None and f[1][1] in ("std::option::Option", "core::option::Option"):
+                    vi = {"None": 0, "Some": 1}.get(f[1][2])
+                if vi is not None and ((f[0] == "is" and str(vi) != f[2]) or (f[0] == "isnot" and str(vi) in f[2])):
+                    return True
+        return False
+    if not after or any(p.end[0] != "return" or p.ret is None for p in after):
+        return False
+    for p in after:
+        r = strip(p.ret)
+        used = [v for v in cvars if contains(r, v)]
+        if not used:
+            if not (r[0] == "agg" and r[2] == "None"):
+                return False
+            continue
+        if len(used) != 1:
+            return False
+        v = used[0]
+        for val, facts in cands[v]:
+            if infeasible([subst(strip(f), v, val) for f in p.facts]):
+                continue
+            r2 = subst(r, v, val)
+            if r2 == r:
+                continue        # the accumulator is kept: what it held before was stored by one of the other updates
+            if facts is None:
+                if not (r2[0] == "agg" and r2[2] == "None"):
+                    return False
+                continue
+            if not good_ret(r2, facts):
+                # an update that carries the old candidate over (`best = best.or(..)`, `Some((old_index, ..))`): the index component is the one the accumulator held
+                if r2[0] == "agg" and r2[2] == "Some" and len(r2[3]) == 1 and r[0] == "agg" and r[2] == "Some" and r2[3][0] == r[3][0]:
+                    continue
+                return False
+    return True
+
+
 def octree_inv(ctx, bodies, lemmas, trusts):
     R = "OCTREE-INV"
     prog = ctx.prog
@@ -2237,7 +2463,7 @@ def octree_inv(ctx, bodies, lemmas, trusts):
                 "who-writes rules for the trusted leaf-count and depth invariants", floor=10)
     NEXT = "<image::OcTreePath as std::iter::Iterator>::next"
     ARGMIN = "image::OcTree::prune::argmin_color_count"
-    need = {p: prog.body(p) for p in (NEXT, "image::OcTreePath::new", "image::OcTree::insert", "image::OcTree::insert::insert_rec", ARGMIN, ARGMIN + "::{closure#0}", ARGMIN + "::{closure#2}",
+    need = {p: prog.body(p) for p in (NEXT, "image::OcTreePath::new", "image::OcTree::insert", "image::OcTree::insert::insert_rec", ARGMIN,
                                       "image::OcTreeNode::info", "image::OcTreeInfo::empty", "image::OcTree::node_update", "image::OcTree::prune", "image::OcTree::prune::prune_rec",
                                       "image::OcTreeLeaf::from_rgba", "image::OcTreeLeaf::to_rgba")}
     for p, b in need.items():
@@ -2247,6 +2473,8 @@ def octree_inv(ctx, bodies, lemmas, trusts):
         return
     P = {}
     for p, b in need.items():
+        if p == ARGMIN:
+            continue        # decided by argmin_ok: an iterator chain or a loop
         ev, ps = paths_of(ctx, R, b)
         if ps is None:
             return
@@ -2280,8 +2508,9 @@ def octree_inv(ctx, bodies, lemmas, trusts):
     for p in P[NEXT]:
         r = p.ret
         if r is not None and r[0] == "agg" and r[2] == "Some":
-            v = uncast(r[3][0])
-            ok_next = ok_next and v[0] == "bin" and v[1] == "BitAnd" and any(const_int(x) is not None and 0 <= const_int(x) <= 7 for x in (v[2], v[3]))
+            # the element fits 3 bits by what it computes: `x & 7`, the mask distributed over an or (`(a & 4) | (b & 2) | (c & 1)`), `x % 8`, `x >> k` of a bounded x ..
+            m = umax(r[3][0])
+            ok_next = ok_next and m is not None and m <= 7
         elif none_ret(r):
             ok_next = ok_next and length_is_zero(p.facts)
         else:
@@ -2310,23 +2539,7 @@ def octree_inv(ctx, bodies, lemmas, trusts):
     else:
         ctx.violation(R, "image::OcTree::insert", "first-step", "OcTree::insert's expect() is not applied to the first element of a fresh OcTreePath of constant non-zero length", sites=[need["image::OcTree::insert"].loc])
     # (3) argmin: enumerate index of one of the 8 children whose info().min_color_count is Some
-    ok_arg = bool(P[ARGMIN])
-    for p in P[ARGMIN]:
-        r = strip(p.ret) if p.ret is not None else None
-        good = r is not None and is_call(r, r"Option::<T>::map$") and is_call(r[2][0], r"Iterator::(min_by_key|max_by_key|min_by|max_by|next|last)$") and is_call(r[2][0][2][0], r"Iterator::filter_map$") \
-            and is_call(r[2][0][2][0][2][0], r"Iterator::enumerate$") and is_call(r[2][0][2][0][2][0][2][0], r"slice::<impl \[T\]>::iter$") and r[2][0][2][0][2][0][2][0][2] == (field(("arg", 1), "children"),)
-        ok_arg = ok_arg and good
-    ok_arg = ok_arg and all(p.ret is not None and strip(p.ret) == field(("arg", 2), "0") for p in P[ARGMIN + "::{closure#2}"])
-    info_t = ("call", "image::OcTreeNode::info", (field(("arg", 2), "1"),), None)
-    mcc = ("try", field(info_t, "min_color_count"))
-    for p in P[ARGMIN + "::{closure#0}"]:
-        r = strip(p.ret) if p.ret is not None else None
-        if r is not None and r[0] == "agg" and r[2] == "Some":
-            ok_arg = ok_arg and r[3][0][0] == "tuple" and r[3][0][1][0] == field(("arg", 2), "0") and variant_known([strip(f) for f in p.facts], mcc, "0")
-        elif r is not None and is_call(r, r"from_residual$"):
-            pass
-        elif not (r is not None and r[0] == "agg" and r[2] == "None"):
-            ok_arg = False
+    ok_arg = argmin_ok(ctx, R, prog, need[ARGMIN])
     ctx.instance(R, {"argmin_color_count": "index = enumerate() position over tree.children of an element whose info().min_color_count is Some", "holds": ok_arg})
     vs = dict((n, str(d if d is not None else i)) for i, (n, d) in enumerate(prog.enum_variants("image::OcTreeNode") or []))
     ok_info = "Empty" in vs
